@@ -149,9 +149,18 @@ def describe(v):
     if isinstance(v, slice):
         return f"slice({v.start!r}, {v.stop!r}, {v.step!r})"
     if hasattr(v, "chunks"):
-        return "FmtStr(" + ", ".join(f"Chunk({c.s!r}, {dict(c.atts)!r})" for c in v.chunks) + ")"
+        runs = v.chunks
+        if len(runs) > 40:      # a value that large is described by its ends (and a broken function may have made it astronomically large)
+            head = ", ".join(f"Chunk({c.s[:40]!r}, {dict(c.atts)!r})" for c in runs[:6])
+            tail = ", ".join(f"Chunk({c.s[:40]!r}, {dict(c.atts)!r})" for c in runs[-2:])
+            return f"FmtStr({head}, ... {len(runs) - 8} more runs ..., {tail})"
+        return "FmtStr(" + ", ".join(f"Chunk({(c.s if len(c.s) <= 200 else c.s[:60] + '...' + str(len(c.s)) + ' characters')!r}, {dict(c.atts)!r})" for c in runs) + ")"
     if isinstance(v, list):
+        if len(v) > 40:
+            return "[" + ", ".join(describe(x) for x in v[:4]) + f", ... {len(v) - 4} more items]"
         return "[" + ", ".join(describe(x) for x in v) + "]"
+    if isinstance(v, str) and len(v) > 400:
+        return repr(v[:80]) + f"...({len(v)} characters)"
     return repr(v)
 
 
@@ -183,10 +192,13 @@ def check_concrete(contract, args, observe_unchanged=True):
     import copy
     a = NS(dict(args))
     before = {k: S.cells(v) for k, v in args.items() if hasattr(v, "chunks")}
+    before_runs = {k: len(v.chunks) for k, v in args.items() if hasattr(v, "chunks")}
     before_items = {(k, i): (x, S.cells(x), len(x.chunks)) for k, v in args.items() if isinstance(v, (list, tuple))
                     for i, x in enumerate(v) if hasattr(x, "chunks")}
     oc = run_concrete(contract, args)
     for k, b in before.items():
+        if len(args[k].chunks) != before_runs[k]:       # (cheap, and first: the operand may have become too large to walk)
+            return False, "frame", f"argument {k} changed: it had {before_runs[k]} runs and has {len(args[k].chunks)} after the call"
         if S.cells(args[k]) != b:
             return False, "frame", f"argument {k} changed: {str(b)[:300]} -> {str(S.cells(args[k]))[:300]}"
     for (k, i), (x, b, nruns) in before_items.items():
